@@ -91,6 +91,7 @@ impl FromStr for AttoTokens {
         let converted_units = {
             let units = itr
                 .next()
+                .filter(|s| !s.is_empty() && is_decimal_digits(s))
                 .and_then(|s| s.parse::<Amount>().ok())
                 .ok_or_else(|| {
                     EvmError::FailedToParseAttoToken("Can't parse token units".to_string())
@@ -102,7 +103,13 @@ impl FromStr for AttoTokens {
         };
 
         let remainder = {
-            let remainder_str = itr.next().unwrap_or_default().trim_end_matches('0');
+            let remainder_str = itr.next().unwrap_or_default();
+            if !is_decimal_digits(remainder_str) {
+                return Err(EvmError::FailedToParseAttoToken(
+                    "Can't parse token remainder".to_string(),
+                ));
+            }
+            let remainder_str = remainder_str.trim_end_matches('0');
 
             if remainder_str.is_empty() {
                 Amount::ZERO
@@ -118,15 +125,24 @@ impl FromStr for AttoTokens {
             }
         };
 
-        Ok(Self(converted_units + remainder))
+        converted_units
+            .checked_add(remainder)
+            .map(Self)
+            .ok_or(EvmError::ExcessiveValue)
     }
+}
+
+/// Only plain decimal digits are accepted in an amount: the underlying integer parser would
+/// otherwise also take radix prefixes (`0x`, `0o`, `0b`) and `_` separators.
+fn is_decimal_digits(s: &str) -> bool {
+    s.bytes().all(|b| b.is_ascii_digit())
 }
 
 impl Display for AttoTokens {
     fn fmt(&self, formatter: &mut Formatter) -> fmt::Result {
         let unit = self.0 / Amount::from(TOKEN_TO_RAW_CONVERSION);
         let remainder = self.0 % Amount::from(TOKEN_TO_RAW_CONVERSION);
-        write!(formatter, "{unit}.{remainder:09}")
+        write!(formatter, "{unit}.{remainder:018}")
     }
 }
 
